@@ -42,16 +42,18 @@ merge(FN, wrapper_acq_entries('ordered_guarded', OSACQ, 'C02 C08', 'G(self)', GS
 merge(FN, whole_object_ops('ordered_guarded', 'G(self)', GSET, load_sh=[(True, is_sh), (False, not_sh)]))
 FN[r'ordered_guarded::modify'] = dict(
     props='C01 C02 C20', setup=GSET,
-    requires=['G(self) && FREE(self->m_mutex) && vf_held == 0 && !vf_exc && ' + R3],
-    ensures=[('C01 C02 C20', one_cs(False), 'the functor runs inside exactly one exclusive critical section (model assertion L1 at the call); the lock is released on normal and on exceptional exit'),
+    requires=['G(self) && FREE(self->m_mutex) && vf_held == 0 && !vf_exc && !vf_user_threw && ' + R3],
+    ensures=[('C20', 'vf_user_threw == (vf_exc != 0)', 'an exception thrown by the functor propagates to the caller; nothing else throws'),
+             ('C01 C02 C20', one_cs(False), 'the functor runs inside exactly one exclusive critical section (model assertion L1 at the call); the lock is released on normal and on exceptional exit'),
              ('C20', 'G(self)', 'wrapper invariant on every exit'),
              ('', G3, 'counters')],
     assigns='self->m_mutex, self->m_obj.v, self->m_obj.torn, ' + GHOST_ASSIGNS)
 for _sh, _w in ((True, is_sh), (False, not_sh)):
     FN.setdefault(r'ordered_guarded::read', []).append(dict(
         props='C02 C20', setup=GSET, where=_w,
-        requires=['G(self) && FREE(self->m_mutex) && vf_held == 0 && !vf_exc && ' + R3],
-        ensures=[('C02 C20', one_cs(_sh), 'the functor runs inside exactly one critical section (shared mode for a shared-capable mutex); released on normal and on exceptional exit'),
+        requires=['G(self) && FREE(self->m_mutex) && vf_held == 0 && !vf_exc && !vf_user_threw && ' + R3],
+        ensures=[('C20', 'vf_user_threw == (vf_exc != 0)', 'an exception thrown by the functor propagates to the caller; nothing else throws'),
+                 ('C02 C20', one_cs(_sh), 'the functor runs inside exactly one critical section (shared mode for a shared-capable mutex); released on normal and on exceptional exit'),
                  ('C02 C20', 'G(self) && self->m_obj.v == vf_cs_entry_v', 'read does not modify the object'),
                  ('', G3, 'counters')],
         assigns='self->m_mutex, self->m_obj.v, ' + GHOST_ASSIGNS))
